@@ -615,7 +615,7 @@ def c10(run):
         for i in range(n):
             f.write(_json.dumps({"seed": rnd.getrandbits(62), "threads": [2, 3, 4, 8, 16][i % 5], "calls": 60,
                                  "nvals": 5 + rnd.randrange(4)}, separators=(",", ":")) + "\n")
-        for i in range(2 + n // 8):     # large sizes: two of the shared values have many members or many vertices
+        for i in range(2 + n // 4):     # large sizes: two of the shared values have many members or many vertices
             f.write(_json.dumps({"seed": rnd.getrandbits(62), "threads": [2, 4, 8][i % 3], "calls": 40,
                                  "nvals": 4 + rnd.randrange(3), "big": True}, separators=(",", ":")) + "\n")
     joined, evs = _purity_round(run, seedfile, "r1")
